@@ -54,6 +54,21 @@ CHECKS = {
   "All 400 subsets of configurable slots (deb 2^7, rpm 2^7, apk 2^6, archlinux 2^6, ipk 2^4) are built for several body variants (binary, CRLF, no trailing newline, empty, 1 MiB in thorough); a slot must be populated iff configured, with exactly the configured bytes and mode.",
   "rpm bodies are NUL-free (header strings cannot carry NUL); an empty rpm scriptlet may be absent.",
   "4/C09"),
+ "C10": ("exploration",
+  "runtime monitoring: signature extraction + independent verification (go-crypto, crypto/rsa, gpg, openssl) over verifier bytes recomputed from stored members; recording sign callbacks; injected signer failures checked with errors.As / errors.Is",
+  "Signatures of really built deb (debsign all types, dpkg-sig), rpm and apk packages are verified with the matching public key over the bytes the format's verifier uses, recomputed from the stored members, for all key kinds shipped with the repository and for callbacks (which must receive exactly those bytes); every failure injection must yield an error identifiable as *nfpm.ErrSigningFailure that still wraps the signer's error.",
+  "Keys are the repository's test keys. gpg and openssl are used when installed (they are in this image); the harness-owned verification always runs.",
+  "4/C10"),
+ "C11": ("exploration",
+  "runtime monitoring: bounded-exhaustive operation sequences over {validate, file-name(f), package(f)} on one parsed configuration, differential against fresh-parse baselines (bytes) and reflective deep snapshots of Config.Get(f)",
+  "For aliasing-rich generated configurations every sequence up to the length bound, all 120 packaging orders and random longer sequences are executed on a freshly parsed configuration (both with fresh settings per operation and with package reusing the settings a file name was asked for); every package is compared byte-for-byte with the fresh-parse build and the settings afterwards with a fresh parse. exhaustive for sequences <= 2 (quick) / <= 3 (thorough).",
+  "Relies on deterministic builds (checked per baseline, covered by C07). Function values are excluded from the deep comparison.",
+  "4/C11"),
+ "C12": ("exploration",
+  "runtime monitoring with the Go race detector: -race build of the harness drives concurrent packagings in child processes per GOMAXPROCS value; race-log parsing, overlap-set measurement, byte comparison with sequential builds",
+  "Three concurrency scenarios (shared parsed config with Get up front / inside goroutines, independent settings with 8/32 goroutines incl. same format) x generated aliasing-rich configs (incl. signed with protected keys) x GOMAXPROCS values are run under the race detector; reports are counted in log_path files (exit codes are not trusted), results compared with sequential builds; a run that observed < 2 distinct overlap sets is inconclusive.",
+  "The race detector decides only the executions it saw. Signed outputs are compared for success, not bytes.",
+  "4/C12"),
 }
 
 NOT_YET = "check not yet registered in this session (under construction)"
